@@ -18,7 +18,7 @@ def T(module, *names, partial=False):
           "Kanzi.Properties.C12_ans1": "Kanzi.C12", "Kanzi.Properties.C12_cm": "Kanzi.C12", "Kanzi.Properties.C13_srt": "Kanzi.C13", "Kanzi.Properties.C01_blockgen": "Kanzi.C01gen",
           "Kanzi.Properties.C19_paths": "Kanzi.C19", "Kanzi.Properties.C13_alias": "Kanzi.C13", "Kanzi.Properties.C13_lzp": "Kanzi.C13", "Kanzi.Properties.C13_fsd": "Kanzi.C13", "Kanzi.Properties.C12_binary": "Kanzi.C12", "Kanzi.Properties.C12_fpaq": "Kanzi.C12",
           "Kanzi.Properties.C12_cm_codec": "Kanzi.C12", "Kanzi.Properties.C13_lz": "Kanzi.C13", "Kanzi.Properties.C13_lz_consts": "Kanzi.ConstsTie",
-          "Kanzi.Properties.C12_tpaq": "Kanzi.C12", "Kanzi.Properties.C12_tpaq_codec": "Kanzi.C12", "Kanzi.Properties.C12_huffman": "Kanzi.C12", "Kanzi.Properties.C13_utf": "Kanzi.C13", "Kanzi.Properties.C13_bwts": "Kanzi.C13", "Kanzi.Properties.C01_blockgen2": "Kanzi.C01gen", "Kanzi.Properties.C13_exe": "Kanzi.C13", "Kanzi.Properties.C13_bwt": "Kanzi.C13", "Kanzi.Properties.C13_rolz": "Kanzi.C13", "Kanzi.Properties.C13_rolz_consts": "Kanzi.ConstsTie"}[module]
+          "Kanzi.Properties.C12_tpaq": "Kanzi.C12", "Kanzi.Properties.C12_tpaq_codec": "Kanzi.C12", "Kanzi.Properties.C12_huffman": "Kanzi.C12", "Kanzi.Properties.C13_utf": "Kanzi.C13", "Kanzi.Properties.C13_bwts": "Kanzi.C13", "Kanzi.Properties.C01_blockgen2": "Kanzi.C01gen", "Kanzi.Properties.C13_exe": "Kanzi.C13", "Kanzi.Properties.C13_bwt": "Kanzi.C13", "Kanzi.Properties.C13_rolz": "Kanzi.C13", "Kanzi.Properties.C13_rolz_consts": "Kanzi.ConstsTie", "Kanzi.Properties.C13_text": "Kanzi.C13"}[module]
     return [{"module": module, "name": n if n.startswith("Kanzi.") else ns + "." + n, "partial": partial or n.endswith("_partial")} for n in names]
 
 
@@ -76,6 +76,7 @@ IMAGEGEN2 = {"name": "imagegen2", "kmodel": "imagegen2", "timeout": 7200}
 EXE = {"name": "exe", "kmodel": "exe", "timeout": 7200}
 BWT = {"name": "bwt", "kmodel": "bwt", "timeout": 7200}
 ROLZ = {"name": "rolz", "kmodel": "rolz", "timeout": 7200}
+TEXT = {"name": "text", "kmodel": "text", "timeout": 7200}
 LZP = {"name": "lzp", "kmodel": "lzp", "timeout": 3600}
 FSD = {"name": "fsd", "kmodel": "fsd", "timeout": 3600}
 SRT = {"name": "srt", "kmodel": "srt", "timeout": 3600}
@@ -263,7 +264,7 @@ PROPS["C12"] = {
 
 PROPS["C13"] = {
     "title": "Transforms: exact inverse pairs, in bounds, clean decline", "design_ref": "5.13", "level": "proof",
-    "technique": "PARTIAL Lean proof: Null, ZRLT, SBRT (all modes), RLT (incl. totality of Inverse on arbitrary input), SRT, PACK/DNA (alias codec), LZ/LZX, LZP, MM, UTF, EXE, ROLZ, ROLZX, BWT and BWTS (inverse algorithms against the spec of the suffix sort) and the transform sequence with skip flags proved as inverse pairs with output bounds; byte-identical differential tie; all 19 transforms searched directly with canaries",
+    "technique": "Lean proof for all 19 transforms (PARTIAL only in that the suffix sort DivSufSort is represented by its specification): Null, ZRLT, SBRT (all modes), TEXT, RLT (incl. totality of Inverse on arbitrary input), SRT, PACK/DNA (alias codec), LZ/LZX, LZP, MM, UTF, EXE, ROLZ, ROLZX, BWT and BWTS (inverse algorithms against the spec of the suffix sort) and the transform sequence with skip flags proved as inverse pairs with output bounds; byte-identical differential tie; all 19 transforms searched directly with canaries",
     "facts": ["Consts"],
     "theorems": T(M13, "C13_null", "C13_zrlt", "C13_zrlt_bytes", "C13_zrlt_no_wrap", "C13_sbrt", "C13_sequence", "C13_sequence_plain", "C13_sequence_all_declined", "C13_sequence_mode_byte", "C13_sequence_len", "C13_sequence_small", "C13_sequence_dst")
                 + T("Kanzi.Properties.C13_rlt", "C13_rlt", "C13_rlt_total", "C13_rlt_bytes", "C13_rlt_shorter")
@@ -282,10 +283,12 @@ PROPS["C13"] = {
                 + T("Kanzi.Properties.C13_rolz", "C13_rolzx_coder", "C13_rolzx_coder_bit", "C13_rolz_sync", "C13_rolz_sync_register", "C13_rolzx", "C13_rolzx_real", "C13_rolzx_bound", "C13_rolzx_total",
                     "C13_rolzx_forward_total_one_chunk", "C13_rolzx_fresh_symbol", "C13_rolz_forward_total", "C13_rolz_length_bytes", "C13_rolz", "C13_rolz_real", "C13_rolz_bound", "C13_rolz_total")
                 + T("Kanzi.Properties.C13_rolz_consts", "rolz_consts")
+                + T("Kanzi.Properties.C13_text", "C13_text_tokens1", "C13_text_tokens2", "C13_text_hash", "C13_text_static", "C13_text_total", "C13_text1", "C13_text2", "C13_text_bytes", "C13_text_sync",
+                    "C13_text_sync_step", "C13_text_sync_decide", "C13_text_maxlen", "C13_text_inverse_nil", "C13_text_small_dst", "C13_text_no_fault")
                 + T("Kanzi.Properties.C13_lzp", "C13_lzp", "C13_lzp_sync", "C13_lzp_total", "C13_lzp_bytes", "C13_lzp_shorter")
                 + T("Kanzi.Properties.C13_fsd", "C13_fsd", "C13_fsd_total", "C13_fsd_bytes", "C13_fsd_any_choice", "C13_fsd_zigzag", "C13_fsd_zigzag_delta") + T(MCT, "transform_consts", "io_consts", "rlt_consts"),
-    "streams": [TRSMALL, RLT, SRT, ALIAS, LZ, LZP, FSD, UTF, BWT, BWTS, EXE, ROLZ, TRDIRECT],
-    "level_text": "PARTIAL PROOF. Proved for all blocks: Null, ZRLT (output <= MaxEncodedLen, inverse restores), SBRT in every mode; the transform sequence for up to 8 stages and every pattern of declining stages (skip flags in the mode byte or the extra byte recover exactly; all-declined leaves the block; composed MaxEncodedLen bounds the output). Models tied by byte-identical outputs on tens of thousands of blocks. RLT is modelled completely (escape selection, DetectSimpleType, both early declines, 1/2/3-byte run lengths, pending byte, tail) and proved: accepted blocks are strictly shorter, fit MaxEncodedLen and are restored by Inverse into any destination >= the original length, and NEITHER direction can index out of range - Inverse on ARBITRARY input returns ok or a clean error (C13_rlt, C13_rlt_total, C13_rlt_shorter); byte-exact rlt stream (both defects F28/F29 are flagged on the pre-fix file). SRT is modelled completely (Shell sort of the symbols proved to be a sorting permutation, 1..5-byte varint header, rank coding): for every block below 2^31 bytes Forward never declines or faults, its output is at most len+1028 <= MaxEncodedLen bytes (len <= 2^30) and Inverse restores the block (C13_srt, C13_srt_len, C13_srt_size_sharp); Inverse cannot fault on a well-formed header (C13_srt_total_inverse_partial - PARTIAL: on malformed input it DOES index out of range, proved as C13_srt_inverse_faults_*; such faults are outside C13 and are recovered by the decoding task, see DESIGN §6 observations); byte-exact srt stream. The alias codec (PACK and DNA) is modelled completely (one-symbol, 2-bit and 4-bit packing, the digram path with its order-1 histogram, merge sort and alias map, every decline, the dataType write-back): accepted blocks are strictly shorter, fit MaxEncodedLen and are restored exactly for both variants and every hint; correctness holds for ANY injective alias map onto unused bytes (C13_alias_any_injective_map); Forward never faults, Inverse never faults on a Forward output, and on arbitrary input it faults exactly when the decidable predicate invSafe is false (C13_alias_total; those malformed-input faults are observations, recovered by the decoding task); byte-exact alias stream. LZP is modelled completely (uint32 context hash, 65536-entry position table, 254-step length coding, both copy branches): accepted blocks are restored by Inverse, and the encoder and decoder hash tables and contexts are proved equal at EVERY step (C13_lzp, C13_lzp_sync); Forward never faults; Inverse on arbitrary input returns data, a clean error or exactly one of two index faults whose conditions are proved (observations). MM (fixed-step delta codec) is modelled completely incl. the magic-number test, the three-window entropy sampling with the real log2 tables and the delta/xor choice: round trip for every (distance, mode) choice (C13_fsd_any_choice), accepted blocks fit and are restored (C13_fsd), and BOTH directions are total - Inverse cannot fault on any input (C13_fsd_total); zigzag tables proved mutually inverse. Byte-exact lzp and fsd streams. LZ / LZX (the LZ77 codec, bitstream version 6) is modelled completely - both 64-bit hash functions, hash table, lazy matching, repeat distances, token / length / distance coding in four sections, every decline; the decoder with its 16-byte overshooting copy loop - and proved: the 1/3/4-byte length coding is an inverse pair below 2^24+255 and wraps beyond (the cause of F31: C13_lz_lengths, C13_lz_lengths_wrap); the decoder is correct for EVERY valid token stream (C13_lz_format); every stream the encoder emits is a valid token stream denoting the block (C13_lz_forward_valid: no claim about match quality); hence Inverse(Forward b) = b, within MaxEncodedLen (C13_lz, C13_lz_bound); Forward never faults - incl. the never-grown token buffer, which is large enough only because both hashes are injective in the fifth byte (C13_lz_hash_fifth_byte) - and Inverse never faults on a Forward output (C13_lz_total); faults of Inverse on forged input are observations (the model is the exact no-panic predicate: C13_lz_inverse_fuel_partial). Byte-exact lz stream. UTF (code point aliasing) is modelled completely (validation tables, head / tail bytes, BOM test, 32768-symbol limit, ranking sort, both unpack variants) and proved after the repair F41: pack/unpack is lossless on every accepted sequence (C13_utf_pack), accepted blocks are strictly shorter and restored exactly for every hint (C13_utf), Forward never faults, Inverse never faults on a Forward output and its exact fault condition on forged input is a theorem (C13_utf_total); correctness holds for any injective ranking. BWTS (bijective BWT): the INVERSE is modelled completely and proved against the mathematical definition - Lyndon factorisation (existence and Chen-Fox-Lyndon uniqueness, C13_bwts_lyndon), rotations of the factors sorted by the order of infinite powers (C13_bwts_matrix), and the Gil-Scott/Kufleitner theorem in full: bwtsInverse (bwtsSpec s) = s for every block, the inverse is total on EVERY byte string and is a bijection (C13_bwts_inverse, C13_bwts_total, C13_bwts_bijective); the Forward (suffix sort by DivSufSort + Lyndon repair) is tied to the definition only by the bwts stream (real Forward = bwtsSpec = an independent naive Go reference, exhaustive small alphabets, Forward(Inverse x) = x on arbitrary strings), not by proof. EXE (executable filter) is modelled completely as repaired by F39/F40 (ELF32/64 LE/BE, PE and Mach-O header parsing with int64 wrap-around and every bounds check, the heuristic scan, x86 CALL/JMP/Jcc and ARM64 B/BL rewriting with escapes, the legacy v2 inverse): every operand / branch word survives encode-decode (C13_exe_x86_jump, C13_exe_arm_branch), the section transforms are inverse pairs for EVERY byte sequence and every code range the parser can return (C13_exe_x86, C13_exe_arm), the whole transform round-trips within MaxEncodedLen (C13_exe), and BOTH directions are total: Forward never faults on any bytes (headers are attacker-controlled on the compression side too) and Inverse never faults on any input (C13_exe_total); 49 constants tied by decide. BWT: the forward suffix sort (DivSufSort) is represented by its SPEC (suffix array of the block, primary indexes of the 8 chunks) and tied to the real Forward by the stream (every output byte and index vs the spec on small blocks and vs an independent Go suffix-array reference up to 1 MiB); BOTH inverse algorithms are modelled faithfully and PROVED against the spec for every block: inverseMergeTPSI (blocks <= 4 MiB) and the bi-gram inverseBiPSIv2 (larger blocks, any job count, destination of exactly the block size included - after fix F46) (C13_bwt_inverse_mergeTPSI, C13_bwt_inverse_biPSI, C13_bwt_roundtrip_small/big); the block header of BWTBlockCodec round-trips and forged headers are rejected (C13_bwt_header*); BWTBlockCodec.Inverse on a fresh instance is total on ANY input (C13_bwt_total: the fixes F24/F30 as theorems); the tasks of the parallel inverse write pairwise disjoint index ranges (C13_bwt_tasks_disjoint). ROLZ and ROLZX are modelled completely as repaired by F42/F45 (context-key hashes, rings of candidate positions, lazy match, side buffers with the Go capacities and the ANS transport for ROLZ, the adaptive binary range coder of ROLZX, 16 MiB chunks): the ROLZX coder round-trips every symbol sequence (C13_rolzx_coder), encoder and decoder match tables stay equal at every step (C13_rolz_sync), both codecs restore every accepted block (C13_rolzx, C13_rolz, also at the chunk boundaries that were defective), within MaxEncodedLen, and Forward never faults (C13_rolzx_total with a quantitative flush budget, C13_rolz_total: token / length / literal buffers cannot overrun). NOT modelled: TEXT (slice in progress), DivSufSort itself - searched directly on the real code (trdirect: every transform and the CLI chains, pipeline buffer sizes with canaries, input-intact checks, data-type hints, all data shapes).",
+    "streams": [TRSMALL, RLT, SRT, ALIAS, LZ, LZP, FSD, UTF, BWT, BWTS, EXE, ROLZ, TEXT, TRDIRECT],
+    "level_text": "PARTIAL PROOF. Proved for all blocks: Null, ZRLT (output <= MaxEncodedLen, inverse restores), SBRT in every mode; the transform sequence for up to 8 stages and every pattern of declining stages (skip flags in the mode byte or the extra byte recover exactly; all-declined leaves the block; composed MaxEncodedLen bounds the output). Models tied by byte-identical outputs on tens of thousands of blocks. RLT is modelled completely (escape selection, DetectSimpleType, both early declines, 1/2/3-byte run lengths, pending byte, tail) and proved: accepted blocks are strictly shorter, fit MaxEncodedLen and are restored by Inverse into any destination >= the original length, and NEITHER direction can index out of range - Inverse on ARBITRARY input returns ok or a clean error (C13_rlt, C13_rlt_total, C13_rlt_shorter); byte-exact rlt stream (both defects F28/F29 are flagged on the pre-fix file). SRT is modelled completely (Shell sort of the symbols proved to be a sorting permutation, 1..5-byte varint header, rank coding): for every block below 2^31 bytes Forward never declines or faults, its output is at most len+1028 <= MaxEncodedLen bytes (len <= 2^30) and Inverse restores the block (C13_srt, C13_srt_len, C13_srt_size_sharp); Inverse cannot fault on a well-formed header (C13_srt_total_inverse_partial - PARTIAL: on malformed input it DOES index out of range, proved as C13_srt_inverse_faults_*; such faults are outside C13 and are recovered by the decoding task, see DESIGN §6 observations); byte-exact srt stream. The alias codec (PACK and DNA) is modelled completely (one-symbol, 2-bit and 4-bit packing, the digram path with its order-1 histogram, merge sort and alias map, every decline, the dataType write-back): accepted blocks are strictly shorter, fit MaxEncodedLen and are restored exactly for both variants and every hint; correctness holds for ANY injective alias map onto unused bytes (C13_alias_any_injective_map); Forward never faults, Inverse never faults on a Forward output, and on arbitrary input it faults exactly when the decidable predicate invSafe is false (C13_alias_total; those malformed-input faults are observations, recovered by the decoding task); byte-exact alias stream. LZP is modelled completely (uint32 context hash, 65536-entry position table, 254-step length coding, both copy branches): accepted blocks are restored by Inverse, and the encoder and decoder hash tables and contexts are proved equal at EVERY step (C13_lzp, C13_lzp_sync); Forward never faults; Inverse on arbitrary input returns data, a clean error or exactly one of two index faults whose conditions are proved (observations). MM (fixed-step delta codec) is modelled completely incl. the magic-number test, the three-window entropy sampling with the real log2 tables and the delta/xor choice: round trip for every (distance, mode) choice (C13_fsd_any_choice), accepted blocks fit and are restored (C13_fsd), and BOTH directions are total - Inverse cannot fault on any input (C13_fsd_total); zigzag tables proved mutually inverse. Byte-exact lzp and fsd streams. LZ / LZX (the LZ77 codec, bitstream version 6) is modelled completely - both 64-bit hash functions, hash table, lazy matching, repeat distances, token / length / distance coding in four sections, every decline; the decoder with its 16-byte overshooting copy loop - and proved: the 1/3/4-byte length coding is an inverse pair below 2^24+255 and wraps beyond (the cause of F31: C13_lz_lengths, C13_lz_lengths_wrap); the decoder is correct for EVERY valid token stream (C13_lz_format); every stream the encoder emits is a valid token stream denoting the block (C13_lz_forward_valid: no claim about match quality); hence Inverse(Forward b) = b, within MaxEncodedLen (C13_lz, C13_lz_bound); Forward never faults - incl. the never-grown token buffer, which is large enough only because both hashes are injective in the fifth byte (C13_lz_hash_fifth_byte) - and Inverse never faults on a Forward output (C13_lz_total); faults of Inverse on forged input are observations (the model is the exact no-panic predicate: C13_lz_inverse_fuel_partial). Byte-exact lz stream. UTF (code point aliasing) is modelled completely (validation tables, head / tail bytes, BOM test, 32768-symbol limit, ranking sort, both unpack variants) and proved after the repair F41: pack/unpack is lossless on every accepted sequence (C13_utf_pack), accepted blocks are strictly shorter and restored exactly for every hint (C13_utf), Forward never faults, Inverse never faults on a Forward output and its exact fault condition on forged input is a theorem (C13_utf_total); correctness holds for any injective ranking. BWTS (bijective BWT): the INVERSE is modelled completely and proved against the mathematical definition - Lyndon factorisation (existence and Chen-Fox-Lyndon uniqueness, C13_bwts_lyndon), rotations of the factors sorted by the order of infinite powers (C13_bwts_matrix), and the Gil-Scott/Kufleitner theorem in full: bwtsInverse (bwtsSpec s) = s for every block, the inverse is total on EVERY byte string and is a bijection (C13_bwts_inverse, C13_bwts_total, C13_bwts_bijective); the Forward (suffix sort by DivSufSort + Lyndon repair) is tied to the definition only by the bwts stream (real Forward = bwtsSpec = an independent naive Go reference, exhaustive small alphabets, Forward(Inverse x) = x on arbitrary strings), not by proof. EXE (executable filter) is modelled completely as repaired by F39/F40 (ELF32/64 LE/BE, PE and Mach-O header parsing with int64 wrap-around and every bounds check, the heuristic scan, x86 CALL/JMP/Jcc and ARM64 B/BL rewriting with escapes, the legacy v2 inverse): every operand / branch word survives encode-decode (C13_exe_x86_jump, C13_exe_arm_branch), the section transforms are inverse pairs for EVERY byte sequence and every code range the parser can return (C13_exe_x86, C13_exe_arm), the whole transform round-trips within MaxEncodedLen (C13_exe), and BOTH directions are total: Forward never faults on any bytes (headers are attacker-controlled on the compression side too) and Inverse never faults on any input (C13_exe_total); 49 constants tied by decide. BWT: the forward suffix sort (DivSufSort) is represented by its SPEC (suffix array of the block, primary indexes of the 8 chunks) and tied to the real Forward by the stream (every output byte and index vs the spec on small blocks and vs an independent Go suffix-array reference up to 1 MiB); BOTH inverse algorithms are modelled faithfully and PROVED against the spec for every block: inverseMergeTPSI (blocks <= 4 MiB) and the bi-gram inverseBiPSIv2 (larger blocks, any job count, destination of exactly the block size included - after fix F46) (C13_bwt_inverse_mergeTPSI, C13_bwt_inverse_biPSI, C13_bwt_roundtrip_small/big); the block header of BWTBlockCodec round-trips and forged headers are rejected (C13_bwt_header*); BWTBlockCodec.Inverse on a fresh instance is total on ANY input (C13_bwt_total: the fixes F24/F30 as theorems); the tasks of the parallel inverse write pairwise disjoint index ranges (C13_bwt_tasks_disjoint). ROLZ and ROLZX are modelled completely as repaired by F42/F45 (context-key hashes, rings of candidate positions, lazy match, side buffers with the Go capacities and the ANS transport for ROLZ, the adaptive binary range coder of ROLZX, 16 MiB chunks): the ROLZX coder round-trips every symbol sequence (C13_rolzx_coder), encoder and decoder match tables stay equal at every step (C13_rolz_sync), both codecs restore every accepted block (C13_rolzx, C13_rolz, also at the chunk boundaries that were defective), within MaxEncodedLen, and Forward never faults (C13_rolzx_total with a quantitative flush budget, C13_rolz_total: token / length / literal buffers cannot overrun). TEXT (both delegates) is modelled completely - the block analysis (detectTextType, magic numbers, thresholds), the static dictionary built by the same procedure from the same string, the hash size rule from block size and (upper-cased) entropy name, the dynamic dictionary with ring replacement and expansion, 1-3 byte index coding with escapes and case flipping, CR+LF handling, both Inverse loops incl. the old codec-2 token format - and proved: index coding is an inverse pair (C13_text_tokens1/2), the collision test on hashes is exact (C13_text_hash), Forward never faults on any block (C13_text_total), after every token encoder and decoder hold the same dictionary (C13_text_sync*), and accepted blocks are restored into every destination >= len (C13_text2; for codec 1 into every destination > len, or >= len when the block does not end in an escape byte - C13_text1: the decoder always provides len + len/16, see DESIGN Observations). ALL NINETEEN transforms are now modelled; only DivSufSort (the suffix sort behind BWT/BWTS) is represented by its specification - searched directly on the real code (trdirect: every transform and the CLI chains, pipeline buffer sizes with canaries, input-intact checks, data-type hints, all data shapes).",
     "level_note": BASE_NOTE + "'input left unmodified' is immediate in the value-level model and checked on the real buffers by the trdirect oracle.",
     "assumptions": [],
 }
